@@ -55,6 +55,15 @@ type Origins struct {
 	// PassThrough: for a call, the index of the argument whose identity the
 	// result carries (methods that return their receiver), or -1.
 	PassThrough func(call *ssa.Call) int
+	// EdgeOK, when set, restricts phi edges to those a fold left executable.
+	EdgeOK func(from, to *ssa.BasicBlock) bool
+}
+
+// foldOrigins: origins as seen under fold r (phi edges over non-executable control-flow edges are ignored).
+func foldOrigins(r *FoldResult) *Origins {
+	return &Origins{EdgeOK: func(from, to *ssa.BasicBlock) bool {
+		return r.Reach[from] && r.Edge[[2]int{from.Index, to.Index}]
+	}}
 }
 
 func (o *Origins) Roots(v ssa.Value) []Root {
@@ -107,7 +116,10 @@ func (o *Origins) walk(v ssa.Value, path []string, conv bool, seen map[ssa.Value
 	case *ssa.Alloc:
 		emit("alloc", nil, 0)
 	case *ssa.Phi:
-		for _, e := range x.Edges {
+		for i, e := range x.Edges {
+			if o.EdgeOK != nil && i < len(x.Block().Preds) && !o.EdgeOK(x.Block().Preds[i], x.Block()) {
+				continue
+			}
 			o.walk(e, path, conv, seen, out, depth+1)
 		}
 	case *ssa.ChangeType:
